@@ -58,4 +58,7 @@ package scrypt
 //@ note intermediate buffer fit the runtime's allocation limit (2^48 bytes)
 //@ requires implies(N > 1 && r > 0 && p > 0, 128*N*r <= 281474976710656 && keyLen <= 137438953440)
 //@ ensures implies(result1 == nil, len(result0) == keyLen)
-//@ ensures implies(N <= 1 || r <= 0 || p <= 0, result1 != nil)
+//@ ensures implies(result1 != nil, ref(result0) == 0 && len(result0) == 0)
+//@ ensures iff(result1 != nil, N <= 1 || !spec.ispow2(N) || r <= 0 || p <= 0 || keyLen <= 0 ||
+//@ |   r*p >= 1073741824 || r > 9223372036854775807/128/p || r > 9223372036854775807/256 || N > 9223372036854775807/128/r)
+//@ canary ensures result1 == nil
